@@ -242,7 +242,7 @@ func (g *ArtGen) noiseClass(class string) string {
 // ---------------------------------------------------------------------------
 // URL references (C06)
 
-var refForms = []string{"path", "dot", "dotdot", "root", "scheme", "query", "abs", "frag", "data", "js", "bad", "embedded", "proxy", "comma"}
+var refForms = []string{"path", "dot", "dotdot", "root", "scheme", "query", "abs", "frag", "data", "js", "bad", "embedded", "proxy", "comma", "pad-path", "pad-root"}
 
 func splitPage(page string) (origin, dir, path string) {
 	// page is http://host/a/b/c.html[?q][#f]
@@ -312,6 +312,12 @@ func (g *ArtGen) ref(carrier, attr, where, ext string, forms []string) string {
 	case "proxy": // ... or in its path
 		raw = "/proxy/800x600/https://cdn.example.net/" + id + ext
 		exp = origin + raw
+	case "pad-path": // white space around the value (HTML strips it from URL attributes)
+		raw = "  rel/" + id + ext + " "
+		exp = origin + dir + "rel/" + id + ext
+	case "pad-root":
+		raw = "\n\t/root/" + id + ext + "\n"
+		exp = origin + "/root/" + id + ext
 	case "comma": // commas inside a URL (CDN transformation paths)
 		raw = "/cdn/w_400,h_300/" + id + ext
 		exp = origin + raw
@@ -322,8 +328,8 @@ func (g *ArtGen) ref(carrier, attr, where, ext string, forms []string) string {
 	return raw
 }
 
-var linkForms = []string{"path", "dot", "dotdot", "root", "scheme", "query", "abs", "frag", "data", "bad", "js", "path", "root", "embedded", "proxy", "comma"}
-var mediaForms = []string{"path", "dot", "dotdot", "root", "scheme", "abs", "path", "root", "query", "embedded", "proxy", "comma"}
+var linkForms = []string{"path", "dot", "dotdot", "root", "scheme", "query", "abs", "frag", "data", "bad", "js", "path", "root", "embedded", "proxy", "comma", "pad-path", "pad-root"}
+var mediaForms = []string{"path", "dot", "dotdot", "root", "scheme", "abs", "path", "root", "query", "embedded", "proxy", "comma", "pad-path", "pad-root"}
 var srcsetForms = []string{"path", "dot", "dotdot", "root", "scheme", "abs", "comma", "proxy"}
 
 func (g *ArtGen) where() string {
@@ -486,7 +492,7 @@ func (g *ArtGen) img(where string) string {
 		n := 1 + g.r.Intn(3)
 		var cands []string
 		for i := 0; i < n; i++ {
-			cands = append(cands, g.ref("img", "srcset", where, ".png", srcsetForms)+fmt.Sprintf(" %dx", i+1))
+			cands = append(cands, g.ref("img", "srcset", where, ".png", srcsetForms)+[]string{fmt.Sprintf(" %dx", i+1), fmt.Sprintf(" %d00w", i+1), " 1.5x", " 1e0x", " 100w 50h", ""}[g.r.Intn(6)])
 		}
 		// keep the src id as the identifying one
 		g.L.RefSeq = append(g.L.RefSeq, id)
@@ -573,7 +579,7 @@ func (g *ArtGen) media(inText bool) {
 		g.addMedia(id, "video")
 		g.w(`<video src="` + src + `" poster="` + g.ref("video", "poster", "video", ".jpg", mediaForms) + `" controls` + g.noise() + `>`)
 		if g.r.Chance(1, 2) {
-			g.w(`<source src="` + g.ref("source", "src", "video", ".webm", mediaForms) + `" type="video/webm"` + g.noise() + `>`)
+			g.w(`<source src="` + g.ref("source", "src", "video", ".webm", mediaForms) + `" srcset="` + g.ref("source", "srcset", "video", ".webm", srcsetForms) + ` 2x" type="video/webm"` + g.noise() + `>`)
 			g.w(`<track src="` + g.ref("track", "src", "video", ".vtt", mediaForms) + `" kind="subtitles"` + g.noise() + `>`)
 		}
 		g.w(`</video>` + "\n")
@@ -798,7 +804,7 @@ func (g *ArtGen) dataTable() {
 				ah = ` aria-hidden="false"`
 			}
 			g.w("<td" + ah + g.noise() + ">")
-			switch g.r.Intn(10) {
+			switch g.r.Intn(12) {
 			case 0:
 				g.w(g.toks(1) + ` <a href="` + g.ref("a", "href", "table", ".html", linkForms) + `"` + g.noise() + `>` + g.toks(1) + `</a>`)
 			case 1:
@@ -828,6 +834,13 @@ func (g *ArtGen) dataTable() {
 				}
 			case 5:
 				g.w("<p" + g.noise() + ">" + g.toks(2+g.r.Intn(4)) + "</p>")
+			case 8:
+				if g.P.Images {
+					// an image map: <area> is a hyperlink element too
+					g.w(g.toks(1) + ` <img src="` + g.ref("img", "src", "table", ".png", mediaForms) + `" usemap="#m` + fmt.Sprint(tid) + `"><map name="m` + fmt.Sprint(tid) + `"><area shape="rect" coords="0,0,10,10" href="` + g.ref("area", "href", "table", ".html", linkForms) + `" alt="z"></map>`)
+				} else {
+					g.w(g.toks(1))
+				}
 			case 7:
 				if g.P.Videos {
 					// media sources that are not images
